@@ -310,7 +310,15 @@ func (s *Stack) Reopen() error {
 
 func (s *Stack) Close() {
 	if s.boltDB != nil {
-		s.boltDB.Close()
+		// bolt's Close waits for open transactions: after a request that deadlocked inside one
+		// (reported by the check that saw it) it would wait forever
+		db := s.boltDB
+		done := make(chan struct{})
+		go func() { db.Close(); close(done) }()
+		select {
+		case <-done:
+		case <-time.After(10 * time.Second):
+		}
 		s.boltDB = nil
 	}
 	if s.dir != "" {
